@@ -19,6 +19,17 @@ CHAINS = [
 ]
 
 
+# ends of the triples the triple laws are asked about: the laws are about the role, whatever the ends are
+ENDS = [('s', 't'), ('a', 5), ('a', 0), ('b', -1.5), ('a', None), ('a', '"a string"'), ('x', 'x'), ('a', 0.0), ('n1', '-'), (7, 'a')]
+
+
+def _ends(c, kw):
+    """Half of the role traces keep the plain ends, the others draw them from ENDS (numbers, None, strings, a self-loop)."""
+    if c.rng.random() < 0.5:
+        kw['src'], kw['tgt'] = c.rng.choice(ENDS[1:])
+    return kw
+
+
 def check_C13(c):
     c.mc('MC_Model', _q(c, 'MC_Model_q.cfg', 'MC_Model_t.cfg'), workers=16, heap='8g')
     jobs = []
@@ -31,18 +42,19 @@ def check_C13(c):
         cases = c.rng.sample(cases, min(len(cases), 6000))
     for case in cases:
         for k in (0, 2):
-            jobs.append(('tr_roles', dict(role=case['role'] + '-of' * k, model='custom', mdl=case['mdl'])))
+            jobs.append(('tr_roles', _ends(c, dict(role=case['role'] + '-of' * k, model='custom', mdl=case['mdl']))))
     n_exp = len(jobs)
     for model, bases in BASES.items():
         for b in bases:
             for k in range(5):
                 jobs.append(('tr_roles', dict(role=b + '-of' * k, model=model)))
+                jobs.append(('tr_roles', _ends(c, dict(role=b + '-of' * k, model=model))))
     for mdl in CUSTOM + CHAINS:
         bases = set(mdl['lits']) | {p[0] + '1' for p in mdl['pats']} | {p[0] + '12' for p in mdl['pats']} | {k_ for k_, _ in mdl['norm']} \
             | {v for _, v in mdl['norm']} | {':free', 'a', ''}
         for b in sorted(bases):
             for k in range(5):
-                jobs.append(('tr_roles', dict(role=b + '-of' * k, model='custom', mdl=mdl)))
+                jobs.append(('tr_roles', _ends(c, dict(role=b + '-of' * k, model='custom', mdl=mdl))))
     # trees
     trees = _corpus_trees() + list(_random_trees(c, _q(c, 800, 20000)))
     for jn, meta in trees:
